@@ -246,8 +246,19 @@ func runC15(src sim.Source, o Opts) *Result {
 	if ctxDone {
 		res.inc("request_context_already_done")
 	}
+	// the request line and the header block may be long (servers accept a megabyte of them): one run in six carries a
+	// query of 5000 bytes, one in six an ordinary header value of 6000 bytes
+	query := "q=1"
+	if src.Intn("longrequestline", 6) == 5 {
+		query = "q=" + strings.Repeat("x", 5000)
+		res.inc("request_line_longer_than_4096_bytes")
+	}
+	if src.Intn("longheader", 6) == 5 {
+		ordinary = append(ordinary, hdr{"X-Long", "ordinary-long-" + strings.Repeat("y", 6000), ""})
+		res.inc("ordinary_header_of_6000_bytes")
+	}
 	mkReq := func(method, p string, log *world.ReqLog) *http.Request {
-		req := world.NewRequest(method, reqHost, p, "", "q=1", log)
+		req := world.NewRequest(method, reqHost, p, "", query, log)
 		if ctxDone {
 			// the request's context is already done (a timeout middleware whose deferred cancel ran while the panic
 			// unwound, or a caller that gave up): the client still gets its answer
@@ -257,7 +268,7 @@ func runC15(src sim.Source, o Opts) *Result {
 		}
 		switch reqForm {
 		case "absolute":
-			req.RequestURI = "http://" + reqHost + p + "?q=1"
+			req.RequestURI = "http://" + reqHost + p + "?" + query
 		case "nohost":
 			req.Host = ""
 		}
@@ -486,9 +497,9 @@ func runC15(src sim.Source, o Opts) *Result {
 							return res
 						}
 					}
-					reqLine := fmt.Sprintf("%s %s?q=1 HTTP/1.1", st.Method, st.Path)
+					reqLine := fmt.Sprintf("%s %s?%s HTTP/1.1", st.Method, st.Path, query)
 					if reqForm == "absolute" {
-						reqLine = fmt.Sprintf("%s http://%s%s?q=1 HTTP/1.1", st.Method, reqHost, st.Path)
+						reqLine = fmt.Sprintf("%s http://%s%s?%s HTTP/1.1", st.Method, reqHost, st.Path, query)
 					}
 					if !strings.Contains(rec.Msg, reqLine) {
 						res.fail("C15/log-record", "%s: the record does not name the request line %q", where, reqLine)
@@ -589,7 +600,7 @@ func runC15(src sim.Source, o Opts) *Result {
 					res.fail("C15/log-record", "%s: %d diagnostic records on standard error, expected 1: %q", where, strings.Count(text, "Recovered from PANIC"), text)
 				case !strings.Contains(text, "route="+pat):
 					res.fail("C15/log-record", "%s: the record does not name the route: %q", where, text)
-				case !strings.Contains(text, fmt.Sprintf("GET %s?q=1 HTTP/1.1", bpath)) && reqForm != "absolute", reqForm == "absolute" && !strings.Contains(text, fmt.Sprintf("GET http://%s%s?q=1 HTTP/1.1", reqHost, bpath)):
+				case !strings.Contains(text, fmt.Sprintf("GET %s?%s HTTP/1.1", bpath, query)) && reqForm != "absolute", reqForm == "absolute" && !strings.Contains(text, fmt.Sprintf("GET http://%s%s?%s HTTP/1.1", reqHost, bpath, query)):
 					res.fail("C15/log-record", "%s: the record does not name the request line: %q", where, text)
 				default:
 					for _, wp := range wantParams {
